@@ -137,6 +137,9 @@ func RunHX(c HXCheck, tier string) int {
 	}
 	deadline := start.Add(dl)
 	pool := par.NewPool(Workers(), "worker", "hx")
+	// per-job limit: only a backstop against a call that never returns (expansions take milliseconds to seconds; the
+	// generous value keeps a slow, loaded machine from ever turning a long job into a "hang")
+	pool.Timeout = 15 * time.Minute
 	defer pool.Close()
 	total := &hx.Stats{Obs: map[string]int{}, Known: map[string]int{}, Exhaustive: true, Counters: map[string]int{}}
 	var viols []string
@@ -583,6 +586,9 @@ func subHX(prop string, scopes []string, tier string, cov map[string]interface{}
 	}
 	deadline := time.Now().Add(dl)
 	pool := par.NewPool(Workers(), "worker", "hx")
+	// per-job limit: only a backstop against a call that never returns (expansions take milliseconds to seconds; the
+	// generous value keeps a slow, loaded machine from ever turning a long job into a "hang")
+	pool.Timeout = 15 * time.Minute
 	defer pool.Close()
 	var viols []string
 	knownSeen := map[string]*Finding{}
